@@ -79,6 +79,8 @@ func runC16(c *Ctx) {
 	c.checkPhaseCoordinatesAA()
 	c.checkPhaseCoordinatesNT()
 	c.checkC16Purity()
+	c.checkSetters("setter-records-arguments", "align", "*phaser", "*pwaligner")
+	c.L.Floor("setter-records-arguments", 7, "14 parameters of the phaser and aligner setters (floor = half)")
 }
 
 // close(phased) must be preceded by wg.Wait() in the same goroutine.
